@@ -2,11 +2,11 @@ package iolib
 
 import (
 	"bufio"
+	"bytes"
 	"errors"
 	"fmt"
 	"io"
 	"io/fs"
-	"io/ioutil"
 	"os"
 	"strings"
 
@@ -29,6 +29,9 @@ var (
 	errInvalidBufferMode = errors.New("invalid buffer mode")
 	errInvalidBufferSize = errors.New("invalid buffer size")
 )
+
+// Maximum size accepted for a write buffer.
+const maxWriteBufferSize = 1 << 30
 
 // A File wraps an os.File for manipulation by iolib.
 type File struct {
@@ -190,10 +193,43 @@ func (f *File) Flush() error {
 	return nil
 }
 
+// readBytes reads bytes from the file until n bytes have been read (if n >= 0),
+// a newline has been read (if toNewline is true) or an error occurs (including
+// io.EOF at the end of the file).  It proceeds by chunks no bigger than the
+// read buffer and requires memory for each chunk before accumulating it, so
+// the amount of memory allocated is bounded by the memory quota rather than by
+// n or the size of the file.
+func (f *File) readBytes(r *rt.Runtime, n int, toNewline bool) (buf []byte, err error) {
+	for n < 0 || len(buf) < n {
+		// Fill the read buffer if it is empty.
+		if _, err = f.reader.Peek(1); err != nil {
+			return buf, err
+		}
+		chunk, _ := f.reader.Peek(f.reader.Buffered())
+		if n >= 0 && len(chunk) > n-len(buf) {
+			chunk = chunk[:n-len(buf)]
+		}
+		foundNewline := false
+		if toNewline {
+			if i := bytes.IndexByte(chunk, '\n'); i >= 0 {
+				chunk = chunk[:i+1]
+				foundNewline = true
+			}
+		}
+		r.RequireBytes(len(chunk))
+		buf = append(buf, chunk...)
+		_, _ = f.reader.Discard(len(chunk))
+		if foundNewline {
+			break
+		}
+	}
+	return buf, nil
+}
+
 // ReadLine reads a line from the file.  If withEnd is true, it will include the
 // end of the line in the returned value.
-func (f *File) ReadLine(withEnd bool) (rt.Value, error) {
-	s, err := f.reader.ReadString('\n')
+func (f *File) ReadLine(r *rt.Runtime, withEnd bool) (rt.Value, error) {
+	s, err := f.readBytes(r, -1, true)
 	if err != nil && err != io.EOF {
 		return rt.NilValue, err
 	}
@@ -208,11 +244,11 @@ func (f *File) ReadLine(withEnd bool) (rt.Value, error) {
 		}
 		s = s[:l]
 	}
-	return rt.StringValue(s), nil
+	return rt.StringValue(string(s)), nil
 }
 
 // Read return a lua string made of up to n bytes.
-func (f *File) Read(n int) (rt.Value, error) {
+func (f *File) Read(r *rt.Runtime, n int) (rt.Value, error) {
 	if n == 0 {
 		// Special case when n = 0: we try to peek 1 byte ahead to decide
 		// whether it's the end of the file or not.
@@ -226,19 +262,18 @@ func (f *File) Read(n int) (rt.Value, error) {
 			return rt.NilValue, err
 		}
 	}
-	b := make([]byte, n)
-	n, err := io.ReadFull(f.reader, b)
-	if err == nil || err == io.ErrUnexpectedEOF {
-		return rt.StringValue(string(b[:n])), nil
+	b, err := f.readBytes(r, n, false)
+	if err == nil || (err == io.EOF && len(b) > 0) {
+		return rt.StringValue(string(b)), nil
 	}
 	return rt.NilValue, err
 }
 
 // ReadAll attempts to read the whole file and return a lua string containing
 // it.
-func (f *File) ReadAll() (rt.Value, error) {
-	b, err := ioutil.ReadAll(f.reader)
-	if err != nil {
+func (f *File) ReadAll(r *rt.Runtime) (rt.Value, error) {
+	b, err := f.readBytes(r, -1, false)
+	if err != io.EOF {
 		return rt.NilValue, err
 	}
 	return rt.StringValue(string(b)), nil
@@ -306,8 +341,11 @@ func (f *File) Seek(offset int64, whence int) (n int64, err error) {
 	return
 }
 
-func (f *File) SetWriteBuffer(mode string, size int) error {
-	if size < 0 {
+// SetWriteBuffer sets the buffering mode of the file for writing and the size
+// of the buffer (if size is 0 a default size is used).  It requires the memory
+// needed for the buffer.
+func (f *File) SetWriteBuffer(r *rt.Runtime, mode string, size int) error {
+	if size < 0 || size > maxWriteBufferSize {
 		return errInvalidBufferSize
 	}
 	f.Flush()
@@ -318,11 +356,13 @@ func (f *File) SetWriteBuffer(mode string, size int) error {
 		if size == 0 {
 			size = 65536
 		}
+		r.RequireBytes(size)
 		f.writer = bufio.NewWriterSize(f.file, size)
 	case "line":
 		if size == 0 {
 			size = 65536
 		}
+		r.RequireBytes(size)
 		f.writer = linebufWriter{bufio.NewWriterSize(f.file, size)}
 		// TODO
 	default:
